@@ -3,7 +3,7 @@
 import json, os, subprocess
 V = os.path.dirname(os.path.dirname(os.path.abspath(__file__)))
 TB_A = "trusted: clang-14 AST + /verif/tools extractor, CBMC 6.11 dfcc + CaDiCaL, C models of std containers, dynamic type = static type; floating + - * / uninterpreted in back end A"
-TB_B = "trusted: clang-14 AST + /verif/tools extractor and VC generator, z3 4.8.12 / z3 5.1 / cvc5 1.0, libm axioms (axioms/libm.smt2); machine arithmetic treated as mathematical (no rounding, no overflow)"
+TB_B = "trusted: clang-14 AST + /verif/tools extractor and VC generator, z3 4.8.12 / z3 5.1 / cvc5 1.0, libm axiom schemas (axioms/axioms_libm.py, ground instances only); machine arithmetic treated as mathematical (no rounding, no overflow)"
 CLAIMED = {
  'C15': dict(cat='proof', technique='CBMC code contracts (goto-instrument --dfcc) with loop invariants on C extracted from the clang AST; ghost probe cell',
    text='WrappableGrid<int,2|3>::translate/operator()/index helpers are proved against the sliding-window abstract map for every prior state: every loop closed by an inductive invariant (unbounded iterations), sizes 1..8 per axis (quick: case split 1..4 / selected 3-D sizes; thorough: symbolic sizes), |offset| <= 2n. Histories follow by induction over the representation invariant.',
@@ -62,7 +62,16 @@ CLAIMED.update({
    text='Forward map conformal (equal scale along meridian and parallel, orthogonal images), scale 1 on both standard parallels / k0 on the tangent parallel, origin -> (x0, y0), central meridian -> x = x0; inverse on images of the forward map: log argument positive in both hemispheres, longitude and isometric latitude recovered exactly, original latitude is a fixed point of the latitude loop at which its exit test holds.',
    note=TB_B + '; rounding (the 1e-11 rad tolerance), convergence and termination of the fixed-point loop are NOT decided by the proof (native replay only)', ref='DESIGN.md 4 (C03)'),
 })
-NA = {}
+COMMON_NA = "the deciding computation is a third-party header-only kernel that contract-based verification cannot reach here: CBMC's C++ front end does not parse Eigen/nanoflann, the extractor covers fixed-size coefficient-wise Eigen only, and a contract on the kernel would have to be assumed in full, after which nothing of the property is left to prove; switching to testing or model checking would be a different technique family (DESIGN.md 5, 9.6)"
+NA = {
+ 'C04': 'rigid registration by SVD: orthonormality, det = +1 on coplanar data, least-squares optimality and invariance under preconditioning are properties of Eigen::JacobiSVD on dynamic-size matrices in floating point; %s',
+ 'C05': 'point-to-plane least squares: the claim is optimality of an LDLT/SVD solve of accumulated normal equations on dynamic-size Eigen matrices, to O(t^2) and floating-point tolerances; %s',
+ 'C06': 'ICP + RANSAC convergence envelope on a data file: an empirical convergence statement about an iterative, randomised pipeline (nanoflann kd-tree, Eigen solvers, std::mt19937), not a per-call pre/postcondition; %s',
+ 'C07': 'linear least-squares solver: minimiser / Cholesky-SVD agreement are Eigen decomposition facts; the contract-shaped clause (only the first dataSize rows are read) lives entirely inside dynamic-size Eigen block expressions (col(i).head(n).dot(...)), so a proof would be about a model of head(), not about repository code; %s',
+ 'C08': 'kd-tree queries: the search is about 1400 lines of vendored nanoflann templates (recursive tree build, heap result sets); the repository part is a forwarding call; %s',
+ 'C09': 'surface normals: eigenvector of Eigen::SelfAdjointEigenSolver on neighbourhoods returned by the nanoflann kd-tree; unit length, least-variance direction, curvature range and rotation equivariance are properties of that solver output in floating point (the sensor-facing flip alone decides no clause); %s',
+}
+NA = {k: v % COMMON_NA for k, v in NA.items()}
 def main():
     props = [json.loads(l) for l in open(os.path.join(V, 'properties.jsonl'))]
     try:
